@@ -192,6 +192,10 @@ PROPS["C09"] = {
 
 PROPS["C10"]["harnesses"] += _steps("p10", (1, 2))
 PROPS["C10"]["harnesses"].append(H("nfs.VerifC02Lookup", covers=("found", "absent", "last-slot", "end"), q=dict(STEPQ, inums=1, dirslots=32, nodirhook=1, sizeblocks=0), t=dict(STEPQ, inums=1, dirslots=32, nodirhook=1, sizeblocks=0), lmax=3, budget_s=600))
+# restart equivalence: the data group only; the namespace group (procs=2) ended with solver unknowns in the
+# second instance's LOOKUP (REMOVE/RMDIR, tracked third name) within 20 minutes and is not registered
+PROPS["C10"]["harnesses"].append(H("nfs.VerifC10Restart", covers=("end", "byte"), q=dict(STEPQ, inums=1, offsets=0, procs=1, preentries=1, zeroalloc=1), t=dict(STEPQ, inums=1, offsets=0, procs=1, preentries=1, zeroalloc=1), lmax=3, budget_s=600, tag="restart1"))
+PROPS["C10"]["explanation"] += "; restart equivalence: after one WRITE / SETATTR / READ (successful or failed) a second server instance started on the same disk answers GETATTR and a one-byte READ at a witness offset exactly as the running one"
 PROPS["C10"]["explanation"] += "; a name cache rebuilt from disk (cold cache, as after a restart or an aborted request) answers LOOKUP exactly as the directory block does, on a full 32-slot directory with names of the maximum length"
 PROPS["C10"]["strict_witness"] = False
 PROPS["C09"].pop("unclaimed", None)
